@@ -187,13 +187,14 @@ fn bundled(r: &mut Report) {
 fn label(i: usize) -> Label {
     Label { ty: Type::Specified, class: Some("c".into()), name: format!("L{i}"), flavor: None }
 }
-/// all ways to attach n signatures (in order) to consecutive labels: compositions of n
+/// all ways to attach n signatures (in order) to consecutive labels: compositions of n, plus labels that carry no signature
 fn splits(n: usize) -> Vec<Vec<usize>> {
+    // parts of size 0 are labels without signatures (legal in the p0f grammar): before, between and after the others
     match n {
-        0 => vec![vec![]],
-        1 => vec![vec![1]],
-        2 => vec![vec![2], vec![1, 1]],
-        _ => vec![vec![3], vec![2, 1], vec![1, 2], vec![1, 1, 1]],
+        0 => vec![vec![], vec![0]],
+        1 => vec![vec![1], vec![0, 1], vec![1, 0]],
+        2 => vec![vec![2], vec![1, 1], vec![0, 2], vec![2, 0], vec![1, 0, 1], vec![0, 1, 1], vec![0, 1, 0, 1, 0]],
+        _ => vec![vec![3], vec![2, 1], vec![1, 2], vec![1, 1, 1], vec![0, 3], vec![1, 0, 2], vec![2, 0, 1], vec![0, 1, 0, 1, 0, 1], vec![1, 1, 0, 1]],
     }
 }
 fn tcp_sig_alphabet() -> Vec<tcp::Signature> {
